@@ -989,6 +989,44 @@ package connect
 //@     invariant into != from ==> (forall q seq :: {mapval(into, q)} !iterated(q) ==> mapval(into, q) == old(mapval(into, q)))
 //@     assigns mapof(into), mapvals(into)
 
+// header.go: the binary-header helpers (C11, C18). Encode emits the unpadded
+// form; Decode accepts the unpadded and the padded form of every byte string
+// and returns exactly the encoded bytes.
+//@ func EncodeBinaryHeader(data) res
+//@   tags C11, C18, C02
+//@   ensures res == b64raw(seq(data)) // label: unpadded_base64
+//@   assigns nothing
+//@ func DecodeBinaryHeader(data) (res, err)
+//@   tags C11, C18, C02
+//@   assigns nothing
+//@   ensures isB64raw(data) ==> err == nil && seq(res) == unb64raw(data) // label: accepts_unpadded
+//@   ensures isB64pad(data) ==> err == nil && seq(res) == unb64pad(data) // label: accepts_padded
+//@   ensures err == nil ==> isB64raw(data) || isB64pad(data) // label: accepts_nothing_else
+//@ lemma binary_header_roundtrip(x seq): isB64raw(b64raw(x)) && unb64raw(b64raw(x)) == x && isB64pad(b64pad(x)) && unb64pad(b64pad(x)) == x
+//@   tags C11, C18
+
+// protocol_connect.go, unary: response trailers travel as HTTP headers under
+// the "Trailer-" prefix, error metadata as plain headers (C11, C02).
+//@ spec isTrailerKey(k seq) bool = |k| >= 8 && k[:8] == "Trailer-"
+//@ lemma trailer_key_split(k seq): isTrailerKey(k) ==> k == "Trailer-" ++ k[8:]
+//@   tags C11
+//@   trigger k[8:]
+//@ macro hdrOf(w ref) ref = cast(rwheader(w), "http.Header")
+//@ func (*connectUnaryHandlerConn).writeResponseHeader(hc, err)
+//@   tags C11, C02
+//@   requires hc != nil && hc.responseWriter != nil && hdrOf(hc.responseWriter) != nil
+//@   requires hdrOf(hc.responseWriter) != hc.responseTrailer
+//@   requires err != nil && coded(err) ==> asErr(err).meta != hdrOf(hc.responseWriter)
+//@   assigns mapof(hdrOf(hc.responseWriter)), mapvals(hdrOf(hc.responseWriter))
+//@   ensures let H := hdrOf(hc.responseWriter) in (forall t seq :: {mapval(hc.responseTrailer, t)} mapdom(hc.responseTrailer, t) ==> mapdom(H, "Trailer-" ++ t) && mapval(H, "Trailer-" ++ t) == mapval(hc.responseTrailer, t)) // label: trailers_travel_under_the_trailer_prefix
+//@   ensures let H := hdrOf(hc.responseWriter) in err != nil && coded(err) ==> (forall k seq :: {mapval(H, k)} mapdom(asErr(err).meta, k) && !(isTrailerKey(k) && mapdom(hc.responseTrailer, k[8:])) ==> mapdom(H, k) && mapval(H, k) == old(rawvals(H, k)) ++ mapval(asErr(err).meta, k)) // label: error_metadata_in_headers
+//@   ensures let H := hdrOf(hc.responseWriter) in (forall k seq :: {mapval(H, k)} !(isTrailerKey(k) && mapdom(hc.responseTrailer, k[8:])) && !(err != nil && coded(err) && mapdom(asErr(err).meta, k)) ==> mapdom(H, k) == old(mapdom(H, k)) && mapval(H, k) == old(mapval(H, k))) // label: other_headers_untouched
+//@   loop 1:
+//@     invariant forall q seq :: {iterated(q)} iterated(q) ==> mapdom(hc.responseTrailer, q)
+//@     invariant forall q seq :: {iterated(q)} iterated(q) ==> mapdom(header, "Trailer-" ++ q) && mapval(header, "Trailer-" ++ q) == mapval(hc.responseTrailer, q)
+//@     invariant forall k seq :: {mapval(header, k)} {mapdom(header, k)} !(isTrailerKey(k) && iterated(k[8:])) ==> mapdom(header, k) == before(mapdom(header, k)) && mapval(header, k) == before(mapval(header, k))
+//@     assigns mapof(header), mapvals(header)
+
 //@ func (*connectStreamingUnmarshaler).Trailer(u) res
 //@   tags C04, C06
 //@   requires u != nil
@@ -1042,6 +1080,116 @@ package connect
 // Connect end-of-stream messages: a peer-supplied error object never yields
 // code 0, and the metadata keys are canonical (lookups are case-insensitive).
 
+// ---------------------------------------------------------------------------
+// C02: the error carriers of the gRPC protocols (sender side)
+// ---------------------------------------------------------------------------
+
+// errText(e): what e.Error() returns (any error implementation; trusted to be a
+// function of the error value).
+//@ spec errText(e ref) seq
+//@ trusted func error.Error(e) res
+//@   pure
+//@   ensures res == errText(e)
+//@   doc: "The error built-in interface: Error returns the message. Assumed deterministic."
+
+// The message of a connect error is the text of the error it wraps.
+//@ macro errMessage(e *Error) seq = if e.err != nil then errText(e.err) else ""
+//@ func (*Error).Message(e) res
+//@   tags C02
+//@   requires e != nil
+//@   ensures res == errMessage(e)
+//@   assigns nothing
+
+//@ trusted func (*Error).detailsAsAny(e) (res, err)
+//@   assigns nothing
+//@   ensures err == nil ==> len(res) == len(e.details)
+//@   doc: "wraps every detail in an *anypb.Any, keeping the order (body not verified: anypb is external)"
+
+//@ func grpcStatusFromError(err) (res, e)
+//@   tags C02
+//@   requires err != nil
+//@   nosafety truncation
+//@   assigns nothing
+//@   ensures e == nil ==> res != nil && fresh(res)
+//@   ensures e == nil && coded(err) && codeOf(err) <= 2147483647 ==> res.Code == codeOf(err) && res.Message == errMessage(asErr(err))   // label: status-carries-code-and-message
+//@   ensures e == nil && !coded(err) ==> res.Code == 2 && res.Message == errText(err)                     // label: plain-error-is-unknown-with-its-text
+//@   ensures e == nil && coded(err) ==> len(res.Details) == len(asErr(err).details)                        // label: all-details-carried
+//@   ensures !coded(err) ==> e == nil
+
+// grpcErrorToTrailer: exactly one grpc-status and one grpc-message whatever
+// the metadata holds; for a coded error the status is the decimal code, the
+// message is its percent-encoding, the binary details are always present, and
+// every metadata value is appended under its key.
+//@ macro reservedGRPC(k seq) bool = k == "Grpc-Status" || k == "Grpc-Message" || k == "Grpc-Status-Details-Bin"
+//@ func grpcErrorToTrailer(bufferPool, trailer, protobuf, err)
+//@   tags C02, C05
+//@   requires bufferPool != nil && trailer != nil && protobuf != nil
+//@   requires err != nil && coded(err) ==> asErr(err).meta != trailer
+//@   nosafety truncation
+//@   assigns mapof(trailer), mapvals(trailer)
+//@   ensures mapdom(trailer, "Grpc-Status") && |mapval(trailer, "Grpc-Status")| == 1 && mapdom(trailer, "Grpc-Message") && |mapval(trailer, "Grpc-Message")| == 1   // label: exactly-one-status-and-message   // tags: C05
+//@   ensures err == nil ==> mapval(trailer, "Grpc-Status")[0] == "0" && mapval(trailer, "Grpc-Message")[0] == ""   // label: success-is-status-zero
+//@   ensures err != nil && callres("grpcStatusFromError", 1, 1) == nil && callres("Codec.Marshal", 1, 1) == nil ==> mapval(trailer, "Grpc-Status")[0] == dec(callres("grpcStatusFromError", 1, 0).Code) && isEnc(mapval(trailer, "Grpc-Message")[0], callres("grpcStatusFromError", 1, 0).Message)   // label: status-and-percent-encoded-message
+//@   ensures err != nil && callres("grpcStatusFromError", 1, 1) == nil && callres("Codec.Marshal", 1, 1) == nil ==> mapdom(trailer, "Grpc-Status-Details-Bin") && mapval(trailer, "Grpc-Status-Details-Bin") == [b64raw(menc(protobuf, mval(callres("grpcStatusFromError", 1, 0))))]   // label: binary-status-always-sent
+//@   ensures err != nil && !(callres("grpcStatusFromError", 1, 1) == nil && callres("Codec.Marshal", 1, 1) == nil) ==> mapval(trailer, "Grpc-Status")[0] == dec(13)   // label: unencodable-error-is-internal
+//@   ensures err != nil && coded(err) && callres("grpcStatusFromError", 1, 1) == nil && callres("Codec.Marshal", 1, 1) == nil ==> (forall k seq :: {mapval(trailer, k)} mapdom(asErr(err).meta, k) && !reservedGRPC(k) ==> mapdom(trailer, k) && mapval(trailer, k) == old(rawvals(trailer, k)) ++ mapval(asErr(err).meta, k))   // label: error-metadata-appended-under-its-keys   // tags: C11
+//@   ensures forall k seq :: {mapval(trailer, k)} !reservedGRPC(k) && !(err != nil && coded(err) && mapdom(asErr(err).meta, k)) ==> mapdom(trailer, k) == old(mapdom(trailer, k)) && mapval(trailer, k) == old(mapval(trailer, k))   // label: other-trailers-untouched   // tags: C11
+
+// protocol_grpc.go: the handler conn. Whether or not the first Send succeeds,
+// it commits the response headers (they are flushed by the deferred flush),
+// so Close must know: the error then travels in trailers, not in headers.
+//@ trusted func http.Flusher.Flush(f)
+//@   assigns nothing
+//@   doc: "Flush sends any buffered data to the client (no effect on the modelled state)."
+//@ func flushResponseWriter(w)
+//@   tags C05
+//@   assigns nothing
+//@ macro envOK(w *envelopeWriter) bool = w.writer != nil && !pooled(w.writer) && w.bufferPool != nil && w.codec != nil && (forall v int :: {menc(w.codec, v)} |menc(w.codec, v)| < 4294967296) && (w.compressionPool != nil ==> (forall x seq :: {compBy(w.compressionPool.compressors, x)} |compBy(w.compressionPool.compressors, x)| < 4294967296))
+//@ func (*grpcHandlerConn).Send(hc, msg) res
+//@   tags C05, C11, C02
+//@   requires hc != nil && hc.responseWriter != nil && hdrOf(hc.responseWriter) != nil && hdrOf(hc.responseWriter) != hc.responseHeader && envOK(hc.marshaler.envelopeWriter)
+//@   assigns hc.wroteToBody, mapof(hdrOf(hc.responseWriter)), mapvals(hdrOf(hc.responseWriter)), out(hc.marshaler.envelopeWriter.writer)
+//@   ensures hc.wroteToBody                                                                               // label: any-send-attempt-commits-the-headers
+//@   ensures !old(hc.wroteToBody) ==> (forall k seq :: {mapval(hdrOf(hc.responseWriter), k)} mapdom(hc.responseHeader, k) ==> mapdom(hdrOf(hc.responseWriter), k) && mapval(hdrOf(hc.responseWriter), k) == old(rawvals(hdrOf(hc.responseWriter), k)) ++ mapval(hc.responseHeader, k))   // label: response-headers-sent-with-the-first-message   // tags: C11
+//@   ensures old(hc.wroteToBody) ==> (forall k seq :: {mapval(hdrOf(hc.responseWriter), k)} mapval(hdrOf(hc.responseWriter), k) == old(mapval(hdrOf(hc.responseWriter), k)))   // label: headers-written-once
+//@   ensures res != nil ==> coded(res)
+
+// (*grpcHandlerConn).Close, plain gRPC: every value of every merged trailer
+// key is added, in order, under net/http's "Trailer:" prefix. tkey(k) is the
+// key Header.Add files k under; the statement is per key k that no other
+// merged key collides with after canonicalisation.
+//@ trusted func (http.Header).Write(h, w) err
+//@   requires w != nil && (typeis(w, "*bytes.Buffer") ==> owned(w))
+//@   assigns view(w)
+//@   ensures |view(w)| < 4294967296
+//@   doc: "Write writes a header in wire format. (The wire format itself is not modelled; assumed: a header block is shorter than 4 GiB - net/http caps header bytes at 1 MiB by default.)"
+//@ func (*grpcMarshaler).MarshalWebTrailers(m, trailer) res
+//@   tags C05, C02
+//@   requires m != nil && envOK(m.envelopeWriter)
+//@   nosafety ownership
+//@   assigns out(m.envelopeWriter.writer)
+//@   ensures res != nil ==> coded(res)
+//@ constfield grpcHandlerConn.request, grpcHandlerConn.responseWriter, grpcHandlerConn.responseHeader, grpcHandlerConn.responseTrailer, grpcHandlerConn.bufferPool, grpcHandlerConn.protobuf, grpcHandlerConn.web
+//@ macro tkey(k seq) seq = canon("Trailer:" ++ k)
+//@ func (*grpcHandlerConn).Close(hc, err) retErr
+//@   tags C02, C05, C11
+//@   requires hc != nil && hc.responseWriter != nil && hdrOf(hc.responseWriter) != nil && hc.request != nil && hc.request.Body != nil && hc.bufferPool != nil && hc.protobuf != nil
+//@   requires hdrOf(hc.responseWriter) != hc.responseHeader && hdrOf(hc.responseWriter) != hc.responseTrailer
+//@   requires err != nil && coded(err) ==> asErr(err).meta != hdrOf(hc.responseWriter) && asErr(err).meta != hc.responseTrailer
+//@   requires hc.web ==> envOK(hc.marshaler.envelopeWriter)
+//@   nosafety overflow
+//@   assigns everything
+//@   loop 1:
+//@     invariant hdrOf(hc.responseWriter) != mergedTrailers && hdrOf(hc.responseWriter) != nil
+//@     invariant forall q seq :: {iterated(q)} iterated(q) ==> mapdom(mergedTrailers, q)
+//@     invariant forall q seq :: {tkey(q)} mapdom(mergedTrailers, q) && (forall j seq :: {mapdom(mergedTrailers, j)} mapdom(mergedTrailers, j) && tkey(j) == tkey(q) ==> j == q) ==> rawvals(hdrOf(hc.responseWriter), tkey(q)) == before(rawvals(hdrOf(hc.responseWriter), tkey(q))) ++ (if iterated(q) then mapval(mergedTrailers, q) else [])   // label: all-values-of-a-trailer-key-are-added-in-order
+//@     assigns mapof(hdrOf(hc.responseWriter)), mapvals(hdrOf(hc.responseWriter))
+//@   loop 2:
+//@     invariant hdrOf(hc.responseWriter) != mergedTrailers && hdrOf(hc.responseWriter) != nil
+//@     invariant rawvals(hdrOf(hc.responseWriter), tkey(key)) == before(rawvals(hdrOf(hc.responseWriter), tkey(key))) ++ values[:rangeindex+1]
+//@     invariant forall c seq :: {mapval(hdrOf(hc.responseWriter), c)} c != tkey(key) ==> rawvals(hdrOf(hc.responseWriter), c) == before(rawvals(hdrOf(hc.responseWriter), c))
+//@     assigns mapof(hdrOf(hc.responseWriter)), mapvals(hdrOf(hc.responseWriter))
+
 //@ func grpcErrorFromTrailer(bufferPool, protobuf, trailer) res
 //@   tags C06, C02
 //@   requires bufferPool != nil && protobuf != nil
@@ -1055,14 +1203,39 @@ package connect
 //@     invariant 0 - 1 <= rangeindex && rangeindex < |status.Details|
 
 
+// protocol_connect.go: the unary body reader (used by the unary handler for
+// requests and by the unary client for responses and error bodies). The
+// decoder passed in is Codec.Unmarshal or json.Unmarshal.
+//@ trusted func (*connectUnaryUnmarshaler).UnmarshalFunc.unmarshal(data, message) err
+//@   assigns target(message), mval(message)
+//@   doc: "a decoder (Codec.Unmarshal, json.Unmarshal): it writes to its target and to objects it allocates, nothing else"
+//@ func (*connectUnaryUnmarshaler).UnmarshalFunc(u, message, unmarshal) res
+//@   tags C09, C06, C07, C11
+//@   requires u != nil && message != u && u.bufferPool != nil && u.reader != nil && !pooled(u.reader) && !typeis(u.reader, "*bytes.Buffer") && !typeis(u.reader, "*io.LimitedReader") && unmarshal != nil && u.readMaxBytes >= 0
+//@   nosafety overflow
+//@   assigns u.alreadyRead, rest(u.reader), mval(message), target(message)
+//@   ensures res != nil ==> asErr(res) == res                                                             // label: errors-are-coded
+//@   ensures !old(u.alreadyRead) && u.readMaxBytes > 0 && u.readMaxBytes < 9223372036854775807 && |old(rest(u.reader))| > u.readMaxBytes ==> res != nil && (old(termerr(u.reader)) == io.EOF ==> res.code == 3)   // label: body-over-the-limit-is-rejected   // tags: C09
+//@   ensures !old(u.alreadyRead) && old(termerr(u.reader)) == io.EOF && (u.readMaxBytes == 0 || |old(rest(u.reader))| <= u.readMaxBytes) ==> called("(*connectUnaryUnmarshaler).UnmarshalFunc.unmarshal", 1) || called("(*compressionPool).Decompress", 1)   // label: body-within-the-limit-reaches-the-decoder   // tags: C09
+//@   ensures !old(u.alreadyRead) && res == nil && u.readMaxBytes > 0 ==> |old(rest(u.reader))| <= u.readMaxBytes && old(termerr(u.reader)) == io.EOF   // label: accepted-body-is-within-the-limit-and-complete   // tags: C09, C04
+
 //@ constfield connectUnaryClientConn.responseHeader, connectUnaryClientConn.responseTrailer, connectUnaryClientConn.compressionPools, connectUnaryClientConn.bufferPool, connectUnaryClientConn.duplexCall
 //@ func (*connectUnaryClientConn).validateResponse(cc, response) res
-//@   tags C06, C09
+//@   tags C06, C09, C11
 //@   requires cc != nil && response != nil && cc.responseHeader != nil && cc.responseTrailer != nil && cc.compressionPools != nil
+//@   requires cc.responseHeader != response.Header && cc.responseTrailer != response.Header && cc.responseHeader != cc.responseTrailer
+//@   requires response.Body != nil && !pooled(response.Body) && !typeis(response.Body, "*bytes.Buffer") && !typeis(response.Body, "*io.LimitedReader") && cc.bufferPool != nil
+//@   use trailer_key_split
 //@   assigns everything
 //@   ensures res != nil ==> asErr(res) == res && res.code != 0                                          // label: never-the-zero-code
 //@   ensures old(response.StatusCode) != 200 ==> res != nil                                             // label: non-200-is-an-error
 //@   ensures old(response.StatusCode) != 200 && called("NewError", 1) ==> res.code == callres("connectHTTPToCode", 2)   // label: without-a-valid-wire-error-the-code-comes-from-the-http-status
+//@   assert@call((http.Header).Get#1): forall k seq :: {mapval(response.Header, k)} mapdom(response.Header, k) ==> (if isTrailerKey(k) then mapdom(cc.responseTrailer, k[8:]) && mapval(cc.responseTrailer, k[8:]) == mapval(response.Header, k) else mapdom(cc.responseHeader, k) && mapval(cc.responseHeader, k) == mapval(response.Header, k))   // label: headers-and-prefixed-trailers-are-split-with-values-intact   // tags: C11
+//@   loop 1:
+//@     invariant forall q seq :: {iterated(q)} iterated(q) ==> mapdom(response.Header, q)
+//@     invariant forall q seq :: {iterated(q)} iterated(q) && !isTrailerKey(q) ==> mapdom(cc.responseHeader, q) && mapval(cc.responseHeader, q) == mapval(response.Header, q)
+//@     invariant forall q seq :: {iterated(q)} iterated(q) && isTrailerKey(q) ==> mapdom(cc.responseTrailer, q[8:]) && mapval(cc.responseTrailer, q[8:]) == mapval(response.Header, q)
+//@     assigns mapof(cc.responseHeader), mapvals(cc.responseHeader), mapof(cc.responseTrailer), mapvals(cc.responseTrailer)
 
 //@ func grpcValidateResponse(response, header, trailer, availableCompressors, bufferPool, protobuf) res
 //@   tags C06
